@@ -435,6 +435,46 @@ def file_case(ctx, seed):
         shutil.rmtree(d, ignore_errors=True)
 
 
+def deep_stack_case(ctx, seed):
+    """Reads made from deep inside the call stack of replayed code (recursive algorithms, deep framework stacks): the serializer's
+    copy is recursive itself and may run out of stack. Whatever happens then, a value that IS handed out must be a fresh copy."""
+    import sys
+    from playback.recordings.memory.memory_recording import MemoryRecording
+    rng = random.Random(seed)
+    kind = ('memory', 'file', 's3')[seed % 3]
+    tree = leaf = {'leaf': ['x']}
+    for i in range(rng.choice([20, 60, 90])):
+        tree = {'level': i, 'children': [tree], 'tags': ['t%d' % i]}
+    with open_box(kind) as box:
+        r = box.cassette.create_new_recording('Deep')
+        r.set_data('input: tree args=[], kwargs=[]', {'value': tree})
+        r.set_data('flat', {'value': [1, [2, 3], {'a': [4]}]})
+        box.cassette.save_recording(r)
+        got = box.reader().get_recording(r.id)
+        limit = sys.getrecursionlimit()
+
+        def at_depth(n, fn):
+            return fn() if n <= 0 else at_depth(n - 1, fn)
+        for key in ('input: tree args=[], kwargs=[]', 'flat'):
+            for depth in (0, limit // 2, limit - 400, limit - 250, limit - 120, limit - 60):
+                ctx.count('deep_stack_reads')
+                try:
+                    v = at_depth(depth, lambda: got.get_data(key))
+                except RecursionError:
+                    ctx.count('deep_stack_reads_refused_by_recursion_limit')
+                    continue
+                except Exception as ex:
+                    ctx.count('deep_stack_reads_raising_' + type(ex).__name__)
+                    continue
+                ctx.case(('deep', kind, key[:5], depth, seed % 7))
+                stored = got.get_data_direct(key) if hasattr(got, 'get_data_direct') else got.recording_data[key]
+                if shares_mutable(v, stored):
+                    ctx.violation('a read made from deep inside the call stack handed out the stored object itself instead of a copy',
+                                  {'case_seed': seed, 'deep_stack': True, 'cassette': kind, 'key': key, 'stack_depth': depth})
+                    return
+                mutate_deep(v, rng) if not isinstance(v, dict) or 'value' not in v else v['value'].clear() if hasattr(v['value'], 'clear') else None
+
+
 def run(ctx):
     base = ctx.seed * 1000003 + ctx.shard * 1000000
     for i in range(ctx.budget(300, 10000)):
@@ -447,6 +487,8 @@ def run(ctx):
         exception_case(ctx, base + i)
     for i in range(ctx.budget(40, 1500)):
         file_case(ctx, base + i)
+    for i in range(ctx.budget(6, 200)):
+        deep_stack_case(ctx, base + i)
     concurrent_reads(ctx)
     if not ctx.quick and ctx.shard == 0:
         from vlib.repo_tests import run_under_monitors
@@ -470,3 +512,5 @@ def replay(ctx, w):
     copy_case(ctx, s)
     exception_case(ctx, s)
     file_case(ctx, s)
+    if w.get('deep_stack'):
+        deep_stack_case(ctx, s)
